@@ -111,7 +111,7 @@ var findings = []finding{
 	{id: "KF-C05-lenient-number", r: relax{rx: ref.Relax{LenientNumber: true}}, entries: "valid unmarshal decoder"},
 	{id: "KF-C05-raw-control-in-string", r: relax{rx: ref.Relax{RawControl: true}}, entries: "valid unmarshal decoder"},
 	{id: "KF-C05-stream-nul-ends-input", r: relax{nulCut: true}, entries: "valid decoder"},
-	{id: "KF-C05-stream-bad-escape", r: relax{rx: ref.Relax{BadEscape: true}}, entries: "valid decoder"},
+	{id: "FX-C05-stream-bad-escape", r: relax{rx: ref.Relax{BadEscape: true}}, entries: "valid decoder"},
 	{id: "KF-C05-stream-separator-skipped", r: relax{leadSep: true}, entries: "valid decoder"},
 	{id: "KF-C05-valid-closer-ends-check", r: relax{validCloser: true}, entries: "valid"},
 }
@@ -540,7 +540,7 @@ func TestWitness(t *testing.T) {
 	ws := map[string]w{
 		"KF-C05-lenient-number":          {"unmarshal", "01"},
 		"KF-C05-raw-control-in-string":   {"unmarshal", "\"\x01\""},
-		"KF-C05-stream-bad-escape":       {"valid", `"` + "\\" + `uZZZZ"`},
+		"FX-C05-stream-bad-escape":       {"valid", `"` + "\\" + `uZZZZ"`},
 		"KF-C05-valid-closer-ends-check": {"valid", "0]x"},
 		"FX-C05-nul-terminates":          {"unmarshal", "1\x00x"},
 		"FX-C05-stream-literal-eof":      {"valid", "tru"},
